@@ -128,9 +128,14 @@ long double script_value(Plan const& p, long double const* x, std::size_t n, std
         }
         else
         {
+            // non-zero only in a window (or above / below a cut) of one coordinate, not always the first
+            std::size_t const dsel = (n > 8) ? 0 : mix2(s, 13) % n;
             long double const lo = 0.8L * unit(s, 11);
             long double const len = 0.05L + 0.15L * unit(s, 12);
-            v = (x[0] >= lo && x[0] < lo + len) ? poly(p, x, n) : 0.0L;
+            std::uint64_t const style = mix2(s, 14) % 4;
+            bool const in = (style == 0) ? (x[dsel] >= lo)
+                : (style == 1) ? (x[dsel] < lo + len) : (x[dsel] >= lo && x[dsel] < lo + len);
+            v = in ? poly(p, x, n) : 0.0L;
         }
         break;
     }
